@@ -36,6 +36,7 @@ CONSTANTS
     ReadVariant,  \* "tail": code as written;  "aligned": candidate fix
     Emit,         \* "none" | "cases" (print every transition) | "hist" (print complete histories)
     Regs,         \* register names
+    InitMem,      \* "pattern" | "pack" (the puppet's struct, for the variable cases)
     DisVariant    \* "masked" (disasm.rs as written) | "masked_excl" (candidate fix) | "raw" (DAP)
 
 ASSUME /\ W > 0 /\ Lo % W = 0 /\ Hi % W = 0 /\ Lo >= W /\ Hi > Lo
@@ -157,9 +158,6 @@ Record(l) ==
     /\ (Emit = "cases") => PrintT(<<"CASE", ToJson(CaseJson(l))>>)
     /\ (Emit = "hist" /\ nops + 1 = MaxOps) => PrintT(<<"HIST", ToJson(Append(hist, CaseJson(l)))>>)
 
-NoOp == [k |-> "init", a |-> Lo, n |-> 0, data |-> <<>>, pre |-> Mem0, spec |-> <<"ok", <<>> >>,
-         alg |-> <<"ok", <<>> >>, algfix |-> <<"ok", <<>> >>, safter |-> Mem0, aafter |-> Mem0]
-
 Accesses == {an \in Space \X (1..MaxN) : an[1] + an[2] - 1 \in Space}
 
 \* On a refused write the specification leaves the content of [a, a+n) open; the history continues
@@ -195,6 +193,43 @@ WriteWord(a, dk) ==
            /\ smem' = SpecAfter(sp, al, a, W)
            /\ Record([k |-> "WW", a |-> a, n |-> W, data |-> data, pre |-> amem, spec |-> sp, alg |-> al,
                       algfix |-> al, safter |-> SpecAfter(sp, al, a, W), aafter |-> al[2]])
+
+
+(************ MEM: variables of the puppet (DAP setVariable / setExpression) ************)
+\* Program <-> model correspondence (tools/c15_puppet.py): the puppet's #[repr(C, packed)] struct `pack`
+\* is the mapped arena of the "V" configurations.  <<offset, size, class>> of its scalar members:
+Fields == {<<8, 1, "int">>, <<9, 2, "int">>, <<11, 4, "int">>, <<15, 8, "int">>, <<23, 1, "int">>, <<24, 2, "int">>, <<26, 4, "int">>, <<30, 8, "int">>, <<38, 1, "bool">>, <<39, 4, "char">>, <<43, 4, "float">>, <<47, 8, "float">>, <<55, 8, "int">>, <<63, 8, "int">>}
+\* its initial image (guards 0xA5 / 0x5A around the members); the driver checks the real one is equal
+PackImage0 == <<165, 165, 165, 165, 165, 165, 165, 165, 17, 34, 34, 51, 51, 51, 51, 68, 68, 68, 68, 68, 68, 68, 68, 251, 250, 255, 249, 255, 255, 255, 248, 255, 255, 255, 255, 255, 255, 255, 1, 113, 0, 0, 0, 0, 0, 192, 63, 0, 0, 0, 0, 0, 0, 2, 192, 77, 0, 0, 0, 0, 0, 0, 0, 178, 255, 255, 255, 255, 255, 255, 255, 90, 90, 90, 90, 90, 90, 90, 90, 238>>
+MemPack == TLCEval([a \in Space |-> IF Mapped(a) /\ a - Lo + 1 <= Len(PackImage0) THEN PackImage0[a - Lo + 1] ELSE 0])
+\* byte strings a value of that class can take: the driver turns them into the value's literal
+KindsFor(class) == CASE class = "int"   -> {"pat", "inv", "zero", "ones", "min", "max", "one"}
+                     [] class = "bool"  -> {"zero", "one"}
+                     [] class = "char"  -> {"zero", "one", "asc"}
+                     [] class = "float" -> {"zero", "one", "fl"}
+VarData(kind, mem, a, n) ==
+    IF kind \in {"pat", "inv"} THEN DataFor(kind, mem, a, n)
+    ELSE TLCEval([i \in 1..n |->
+           CASE kind = "zero" -> 0
+             [] kind = "ones" -> 255
+             [] kind = "min"  -> IF i = n THEN 128 ELSE 0
+             [] kind = "max"  -> IF i = n THEN 127 ELSE 255
+             [] kind = "one"  -> IF i = 1 THEN 1 ELSE 0
+             [] kind = "asc"  -> IF i = 1 THEN 65 + nops ELSE 0
+             [] kind = "fl"   -> IF i = n THEN 63 ELSE IF i = n - 1 THEN (IF n = 4 THEN 192 ELSE 248) ELSE 0])
+
+\* setVariable / setExpression: parse_set_value (typed little-endian serialisation) then write_bytes
+WriteVar(f, dk) ==
+    /\ "WV" \in OpKinds
+    /\ LET a    == Lo + f[1]
+           n    == f[2]
+           data == VarData(dk, smem, a, n)
+           sp   == SpecWrite(smem, a, data)
+           al   == AlgWriteBytes(amem, a, data)
+       IN  /\ amem' = al[2]
+           /\ smem' = SpecAfter(sp, al, a, n)
+           /\ Record([k |-> "WV", a |-> a, n |-> n, data |-> data, pre |-> amem, spec |-> sp, alg |-> al,
+                      algfix |-> al, safter |-> SpecAfter(sp, al, a, n), aafter |-> al[2]])
 
 (************************* REG: the register file *************************)
 VARIABLES regs,      \* what the kernel holds for the stopped thread, after the algorithms
@@ -292,6 +327,10 @@ DDisasm ==
                   alg |-> Outcome(AlgDisasm(DisVariant, tmem, bps)),
                   algfix |-> Outcome(AlgDisasm("masked_excl", tmem, bps))])
 
+MemInit == IF InitMem = "pack" THEN MemPack ELSE Mem0
+NoOp == [k |-> "init", a |-> Lo, n |-> 0, data |-> <<>>, pre |-> MemInit, spec |-> <<"ok", <<>> >>,
+         alg |-> <<"ok", <<>> >>, algfix |-> <<"ok", <<>> >>, safter |-> MemInit, aafter |-> MemInit]
+
 (****************************** the machines ******************************)
 memvars == <<smem, amem>>
 regvars == <<regs, sregs, seen, sseen>>
@@ -299,7 +338,7 @@ disvars == <<tmem, bps>>
 vars    == <<smem, amem, regs, sregs, seen, sseen, tmem, bps, nops, last, hist>>
 
 Init ==
-    /\ smem = Mem0 /\ amem = Mem0
+    /\ smem = MemInit /\ amem = MemInit
     /\ regs = RegFile0 /\ sregs = RegFile0 /\ seen = <<>> /\ sseen = <<>>
     /\ tmem = Text0 /\ bps = {}
     /\ nops = 0 /\ last = NoOp /\ hist = <<>>
@@ -307,6 +346,7 @@ Init ==
 More == nops < MaxOps
 DoRead       == \E an \in Accesses : More /\ Read(an[1], an[2]) /\ UNCHANGED <<regvars, disvars>>
 DoWriteBytes == \E an \in Accesses, dk \in DataKinds : More /\ WriteBytes(an[1], an[2], dk) /\ UNCHANGED <<regvars, disvars>>
+DoWriteVar   == \E f \in Fields : \E dk \in KindsFor(f[3]) : More /\ WriteVar(f, dk) /\ UNCHANGED <<regvars, disvars>>
 DoWriteWord  == \E a \in Space, dk \in DataKinds : More /\ WriteWord(a, dk) /\ UNCHANGED <<regvars, disvars>>
 DoSetReg     == \E r \in Regs : \E v \in ValsOf(r) : More /\ RSet(r, v) /\ UNCHANGED <<memvars, disvars>>
 DoGetReg     == \E r \in Regs : More /\ RGet(r) /\ UNCHANGED <<memvars, disvars>>
@@ -314,7 +354,7 @@ DoResume     == More /\ RResume /\ UNCHANGED <<memvars, disvars>>
 DoSetBp      == \E a \in Sites : More /\ DSetBp(a) /\ UNCHANGED <<memvars, regvars>>
 DoRemoveBp   == \E a \in Sites : More /\ DRemoveBp(a) /\ UNCHANGED <<memvars, regvars>>
 DoDisasm     == More /\ DDisasm /\ UNCHANGED <<memvars, regvars>>
-NextMem == DoRead \/ DoWriteBytes \/ DoWriteWord
+NextMem == DoRead \/ DoWriteBytes \/ DoWriteWord \/ DoWriteVar
 NextReg == DoSetReg \/ DoGetReg \/ DoResume
 NextDis == DoSetBp \/ DoRemoveBp \/ DoDisasm
 
@@ -328,7 +368,7 @@ View == <<smem, amem, regs, sregs, seen, sseen, tmem, bps, nops>>
 (****************************** properties ******************************)
 \* -- state invariants
 MemoryMatchesSpec   == amem = smem                         \* "memory = spec memory" along every history
-UnmappedNeverChanges == \A x \in Space : ~Mapped(x) => amem[x] = Mem0[x] /\ smem[x] = Mem0[x]
+UnmappedNeverChanges == \A x \in Space : ~Mapped(x) => amem[x] = MemInit[x] /\ smem[x] = MemInit[x]
 RegsMatchSpec       == regs = sregs
 ProgramSeesWrites   == seen = sseen
 PatchesConsistent   == /\ \A p \in bps : tmem[p[1]] = INT3 /\ p[2] = Text0[p[1]]
@@ -336,7 +376,7 @@ PatchesConsistent   == /\ \A p \in bps : tmem[p[1]] = INT3 /\ p[2] = Text0[p[1]]
 
 \* -- step properties ([][...]_vars: TLC evaluates them on *every* generated transition, also into
 \*    states that were already seen, so `last` can stay out of the VIEW)
-IsW(l) == l.k \in {"WB", "WW"}
+IsW(l) == l.k \in {"WB", "WW", "WV"}
 AlgorithmMeetsSpecW == IsW(last') => /\ last'.alg[1] = last'.spec[1]
                                      /\ last'.alg[1] = "ok" => last'.alg[2] = last'.spec[2]
 AlgorithmMeetsSpecR == (last'.k = "R") => last'.alg = last'.spec
